@@ -24,7 +24,7 @@ func init() {
 	lib.Register(&c11{base{
 		id: "C11", level: "fault_enumeration",
 		technique: "runtime fault injection + self-differential monitor: a caller-supplied format checker panics at its k-th invocation, for EVERY k from 1 to the number of invocations K of the panic-free run of the workload (and the documented invalid-schema panic is raised at every depth the workload can place a dangling $ref); the caller recovers; then a follow-up history runs and every outcome is compared with its fresh-process reference while the pool hooks run the ownership automaton (double redeem, borrow of an owned object) and poison redeemed objects",
-		rule: "one case = one workload (12-24 calls through AgainstSchema, recycling schema / parameter / header validators and Spec, whose schemas, items and parameter defaults carry the panicking format under object / array / allOf / anyOf / oneOf / not / additionalProperties / dependencies parents) x every injection point k=1..K x a follow-up history of 60 calls (+ a whole-specification validation every 6th k); K is measured per workload and reported; distinct = FNV-64 of workload + k (each injection point is its own case: a workload with K checker invocations contributes K+1 distinct cases); non-trivial = the injected panic actually unwound a validation (was recovered by the caller) and the follow-up ran",
+		rule: "one case = one workload (12-24 calls through AgainstSchema, recycling schema / parameter / header validators and Spec, whose schemas, items and parameter defaults carry the panicking format under object / array / allOf / anyOf / oneOf / not / additionalProperties / dependencies parents, plus a long-lived non-recycling validator which is used across the panic and must afterwards still answer like a freshly built one) x every injection point k=1..K x a follow-up history of 60 calls (+ a whole-specification validation every 6th k); K is measured per workload and reported; distinct = FNV-64 of workload + k (each injection point is its own case: a workload with K checker invocations contributes K+1 distinct cases); non-trivial = the injected panic actually unwound a validation (was recovered by the caller) and the follow-up ran",
 		assumptions: []string{
 			"fault model: panics raised by the format checker or by the documented invalid-schema check, recovered by the caller; one panic per history",
 			"fresh-process, non-recycling executions are the oracle for the follow-up calls",
@@ -143,6 +143,20 @@ func (p *c11) Run(w *lib.Worker, idx int, r *lib.Rand) lib.Case {
 		c.Inconclusive = fmt.Sprintf("reference process failed: %v", err)
 		return c
 	}
+	// a long-lived (non-recycling) validator which exists before the panic, is used while the checker may
+	// panic, and must keep behaving like a freshly built one afterwards
+	llSchema := []byte(`{"type":"object","properties":{"a":{"type":"string","format":"boom","maxLength":4}},"allOf":[{"properties":{"b":{"type":"string","format":"boom"}}},{"properties":{"c":{"type":"integer","maximum":5}}}],"anyOf":[{"properties":{"d":{"type":"string","format":"boom","minLength":2}}},{"required":["zz"]}],"not":{"properties":{"e":{"type":"string","format":"boom"}},"required":["e"]},"additionalProperties":{"type":"string","format":"boom"}}`)
+	llValues := [][]byte{[]byte(`{"a":"ab","b":"cd","c":3,"d":"ef"}`), []byte(`{"a":"abcdef","c":9}`), []byte(`{"b":"x","d":"y","q":"abc"}`), []byte(`{"c":"no","e":"ab"}`), []byte(`{}`)}
+	mkLL := func() *validate.SchemaValidator {
+		s, _ := sut.Schema(llSchema)
+		return validate.NewSchemaValidator(s, nil, "ll", b.reg)
+	}
+	runLL := func(v *validate.SchemaValidator, val []byte) sut.Outcome {
+		return sut.Guard(func() sut.Outcome {
+			x, _ := sut.Value(val)
+			return sut.FromResult(v.Validate(x))
+		})
+	}
 	// the panic-free run measures K
 	validate.VerifReset()
 	validate.VerifConfigure(validate.VerifConfig{Track: true, Poison: true})
@@ -151,6 +165,13 @@ func (p *c11) Run(w *lib.Worker, idx int, r *lib.Rand) lib.Case {
 		if o := op.Run(true); o.Panic != "" && !isSpecMarshalPanic(o.Panic, op.Schema) {
 			c.Inconclusive = "the panic-free run of the workload panics: " + lib1(o.Panic)
 			return c
+		}
+	}
+	llRef := make([]string, len(llValues))
+	{
+		ll := mkLL()
+		for i, v := range llValues {
+			llRef[i] = runLL(ll, v).Key()
 		}
 	}
 	K := b.n
@@ -172,6 +193,7 @@ func (p *c11) Run(w *lib.Worker, idx int, r *lib.Rand) lib.Case {
 		validate.VerifConfigure(validate.VerifConfig{Track: true, Poison: k%2 == 0})
 		b.n, b.at = 0, k
 		panicAt := -1
+		ll := mkLL()
 		for i, op := range wl {
 			o := op.Run(true)
 			if strings.Contains(o.Panic, "VERIF injected panic") {
@@ -179,14 +201,42 @@ func (p *c11) Run(w *lib.Worker, idx int, r *lib.Rand) lib.Case {
 				break
 			}
 		}
+		llPanicked := false
+		if panicAt < 0 {
+			// the remaining invocations belong to the long-lived validator
+			for _, v := range llValues {
+				if o := runLL(ll, v); strings.Contains(o.Panic, "VERIF injected panic") {
+					panicAt = len(wl) - 1
+					llPanicked = true
+					break
+				}
+			}
+		}
 		b.at = -1
+		// whatever happened, the long-lived validator must now answer like a freshly built one
+		for rep := 0; rep < 2; rep++ {
+			for i, v := range llValues {
+				if got := runLL(ll, v).Key(); got != llRef[i] {
+					c.Viol = &lib.Violation{What: fmt.Sprintf("after a recovered panic (checker invocation k=%d of %d; the long-lived validator itself panicked: %v) a long-lived validator answers %s on %s, a freshly built one answers %s", k, K, llPanicked, short(got), v, short(llRef[i])),
+						Detail: map[string]any{"schema": string(llSchema), "value": string(v), "k": k, "long_lived_validator_panicked": llPanicked}}
+					validate.VerifConfigure(validate.VerifConfig{})
+					validate.VerifReset()
+					return c
+				}
+			}
+		}
+		if llPanicked {
+			c.Tags = append(c.Tags, "unwound:long-lived-validator")
+		}
 		if panicAt < 0 {
 			c.Inconclusive = fmt.Sprintf("injection point k=%d was not reached although K=%d", k, K)
 			return c
 		}
 		recovered++
 		c.Hashes = append(c.Hashes, lib.Hash64(append(append([]byte{}, rendered...), byte(k), byte(k>>8))))
-		c.Tags = append(c.Tags, "unwound:"+wl[panicAt].Kind)
+		if !llPanicked {
+			c.Tags = append(c.Tags, "unwound:"+wl[panicAt].Kind)
+		}
 		// the caller recovered; every later validation must behave as in a fresh process
 		for i, op := range follow {
 			if ref[i].Panic != "" {
@@ -279,7 +329,7 @@ func (p *c11) Finish(a *lib.Aggregate) (broken []string) {
 	if a.Nums["panics_recovered"] == 0 {
 		broken = append(broken, "no injected panic was ever recovered")
 	}
-	for _, k := range []string{"unwound:against", "unwound:schema-recycled", "unwound:param", "unwound:header", "unwound:spec"} {
+	for _, k := range []string{"unwound:against", "unwound:schema-recycled", "unwound:param", "unwound:header", "unwound:spec", "unwound:long-lived-validator"} {
 		if a.Tags[k] == 0 {
 			broken = append(broken, "no panic unwound a call of kind "+strings.TrimPrefix(k, "unwound:"))
 		}
